@@ -614,9 +614,15 @@ static bool usable(const MatDesc &md, const Coars &c) {
     return true;
 }
 
+// replay mode: only the matrix named in the replayed key needs to be visited
+static bool wanted(const std::string &id) {
+    return !vf::replaying() || vf::S().replay_key.find("|" + id + "|") != std::string::npos;
+}
+
 static void static_part() {
     auto cs = coarsenings(); auto av = amg_variants();
     auto for_matrix = [&](const MatDesc &md, bool with_rmerge = true) {
+        if (!wanted(md.id)) return;
         for (size_t ci = 0; ci < cs.size(); ++ci) for (size_t ai = 0; ai < 4; ++ai) for (int nt : {1, 17}) {
             if (nt == 17 && !with_rmerge) continue;
             if (!vf::take_in_group([&]{ return std::string(vf::KS() << "st|" << md.id << "|" << cs[ci].name << "|" << av[ai].name << "|t" << nt); })) continue;
